@@ -383,7 +383,8 @@ def scriptTwins : List (List Nat × List Nat) := [
   ([109, 121, 109, 114], [109, 121, 109, 50]),  -- 'mymr' -> 'mym2'
   ([111, 114, 121, 97], [111, 114, 121, 50]),  -- 'orya' -> 'ory2'
   ([116, 101, 108, 117], [116, 101, 108, 50]),  -- 'telu' -> 'tel2'
-  ([116, 109, 108, 50], [116, 97, 109, 108])  -- 'tml2' -> 'taml']
+  ([116, 109, 108, 50], [116, 97, 109, 108])  -- 'tml2' -> 'taml'
+  ]
 
 /-- language tags that share their BCP 47 language with a smaller tag (which is the one that comes back) -/
 def langTwins : List (List Nat × List Nat) := [
@@ -405,7 +406,8 @@ def langTwins : List (List Nat × List Nat) := [
   ([84, 67, 82, 32], [68, 67, 82, 32]),  -- 'TCR ' -> 'DCR '
   ([84, 71, 76, 32], [80, 73, 76, 32]),  -- 'TGL ' -> 'PIL '
   ([84, 79, 68, 32], [75, 76, 77, 32]),  -- 'TOD ' -> 'KLM '
-  ([89, 67, 82, 32], [67, 82, 69, 32])  -- 'YCR ' -> 'CRE ']
+  ([89, 67, 82, 32], [67, 82, 69, 32])  -- 'YCR ' -> 'CRE '
+  ]
 
 /-- the tag that comes back for `tag` when it travels as a BCP 47 tag without `-x-` extension -/
 def nfTag (twins : List (List Nat × List Nat)) (tag : List Nat) : List Nat :=
@@ -413,20 +415,51 @@ def nfTag (twins : List (List Nat × List Nat)) (tag : List Nat) : List Nat :=
   | some t => t
   | none => tag
 
+/-- Boolean form of the reverse lookup (fast in the kernel) -/
+def stepRevB (val : List Nat) (cur : List Nat) (p : List Nat × List Nat) : List Nat :=
+  if (p.2 == val && (cur.isEmpty || lexLt p.1 cur)) = true then p.1 else cur
+
+theorem stepRevB_eq (val cur : List Nat) (p : List Nat × List Nat) : stepRevB val cur p = stepRev val cur p := by
+  unfold stepRevB stepRev
+  congr 1
+  simp [List.isEmpty_iff]
+
+def revLookupB (order : List (List Nat × List Nat)) (val : List Nat) : List Nat :=
+  order.foldl (stepRevB val) []
+
+theorem revLookupB_eq (order : List (List Nat × List Nat)) (val : List Nat) :
+    revLookupB order val = revLookup order val := by
+  unfold revLookupB revLookup
+  congr 1
+  funext cur p
+  exact stepRevB_eq val cur p
+
 theorem otScripts_ok : tagTableOK Gen.otScripts = true := by decide +kernel
 theorem otLangs_ok : tagTableOK Gen.otLangs = true := by decide +kernel
 
+theorem otScripts_nfB :
+    (Gen.otScripts.all fun p => revLookupB Gen.otScripts p.2 == nfTag scriptTwins p.1) = true := by
+  decide +kernel
+
+theorem otLangs_nfB :
+    (Gen.otLangs.all fun q => q.2.contains 45 || revLookupB Gen.otLangs q.2 == nfTag langTwins q.1) = true := by
+  decide +kernel
+
 /-- every script of the table: the reverse lookup of its BCP 47 value gives the script itself,
 except for the ten scripts listed in `scriptTwins`, which give their smaller twin -/
-theorem otScripts_nf :
-    (Gen.otScripts.all fun p => revLookup Gen.otScripts p.2 == nfTag scriptTwins p.1) = true := by
-  decide +kernel
+theorem otScripts_nf (p : List Nat × List Nat) (hp : p ∈ Gen.otScripts) :
+    revLookup Gen.otScripts p.2 = nfTag scriptTwins p.1 := by
+  have := List.all_eq_true.mp otScripts_nfB p hp
+  rw [revLookupB_eq] at this
+  exact eq_of_beq this
 
 /-- every language whose BCP 47 value is a bare language subtag: the reverse lookup gives the
 language itself, except for the nineteen listed in `langTwins`, which give their smaller twin -/
-theorem otLangs_nf :
-    (Gen.otLangs.all fun q => q.2.contains 45 || revLookup Gen.otLangs q.2 == nfTag langTwins q.1) = true := by
-  decide +kernel
+theorem otLangs_nf (q : List Nat × List Nat) (hq : q ∈ Gen.otLangs) (hd : q.2.contains 45 = false) :
+    revLookup Gen.otLangs q.2 = nfTag langTwins q.1 := by
+  have := List.all_eq_true.mp otLangs_nfB q hq
+  rw [revLookupB_eq, hd, Bool.false_or] at this
+  exact eq_of_beq this
 
 /-- the eight languages whose value is not a bare subtag (never found by the reverse lookup,
 because `tag.Raw()` yields a bare language subtag); `ZHS `, `ZHT ` come back through the special
